@@ -1,11 +1,13 @@
 //! C08 (daemon level, group gs): the REAL source task (`SourceTask::run`, real connected UDP
 //! socket, real `NtpSource`) hands the controller at most one measurement pair per request, only
 //! for an answer that matches the pending request, arrives from the configured server address
-//! inside the poll window, and the pair carries the time stamps of exactly that exchange.
+//! inside the poll window, and the pair carries the time stamps of exactly that exchange —
+//! whatever else arrives before or after it in the same poll (strays with a wrong origin, the
+//! reflected request, KISS codes, datagrams from other peers, truncated datagrams, duplicates).
 //! Rig, reference and driver: `c11_task.rs` (shared, `pub(super)`).
 #![allow(dead_code)]
 
-use super::c11_task::{self as rig, Plan, Sym, Ts, Ver, cfg};
+use super::c11_task::{self as rig, Ts, Ver, cfg, plan};
 use super::common::{self, Ctx};
 
 fn replay(ctx: &Ctx, trace: &str) -> String {
@@ -21,27 +23,27 @@ fn check() {
         common::report_replay("C08", &a, &b, ctx.violation_count() > 0);
         return;
     }
-    ctx.rule("every script of exactly n poll reactions (shorter scripts are their prefixes: silence follows anyway) over {N none, V valid, W the same valid answer twice, O wrong origin/cookie, D DENY, S RSTR, R RATE, U unknown KISS, A valid from 127.0.0.2, P valid from another port, L valid but 5.5 s late, Q (v5) valid asking for max+2} played by a scripted UDP server against the real SourceTask::run, then silent polls until the task gives up; distinct = canonical observation differs");
+    ctx.rule("every script of exactly n polls (shorter scripts are their prefixes: silence follows anyway) in which the scripted UDP server reacts to each poll with any sequence of at most k datagrams, in every order, over {V valid (repeated = the same datagram again), O wrong origin/cookie, X the request reflected, D DENY, S RSTR, R RATE, U unknown KISS, A valid from 127.0.0.2, P valid from another port, T 5.5 s pass (what follows is late), Q (v5) valid asking for max+2, 0 1 2 4 7 = the first 0/1/2/4/47 bytes of a valid answer}, played against the real SourceTask::run, then silent polls until the task gives up; distinct = canonical observation differs");
     rig::common_assumptions(&ctx);
     let quick = ctx.quick();
-    let full: Vec<Sym> = Sym::ALL.to_vec();
-    // the nine reactions of the brief (none, valid, twice, wrong origin, DENY, RSTR, RATE, unknown KISS, other address)
-    let nine = vec![Sym::N, Sym::V, Sym::W, Sym::O, Sym::D, Sym::S, Sym::R, Sym::U, Sym::A];
+    let full = "VOXDSRUAPTQ01247";
     let mut plans = Vec::new();
-    let len = if quick { 4 } else { 5 };
-    for c in [
-        cfg(Ver::V4, 4, 10, Ts::Kr),
-        cfg(Ver::V4, 4, 4, Ts::Sw),
-        cfg(Ver::V4, 4, 10, Ts::Ka),
-        cfg(Ver::V5, 4, 10, Ts::Sw),
-        cfg(Ver::Auto, 4, 10, Ts::Ka),
-    ] {
-        plans.push(Plan { cfg: c, alphabet: full.iter().copied().filter(|s| s.applies(c.ver)).collect(), len });
+    // sequences of up to two datagrams per poll, every order, two polls
+    plans.push(plan(cfg(Ver::V4, 4, 10, Ts::Kr), full, 2, 2));
+    plans.push(plan(cfg(Ver::V4, 4, 10, Ts::Ka), "VODRUA27X", 2, 2));
+    plans.push(plan(cfg(Ver::V5, 4, 10, Ts::Sw), "VODRUA27Q", 2, 2));
+    plans.push(plan(cfg(Ver::Auto, 4, 10, Ts::Ka), "VODRUA27", 2, 2));
+    // one datagram per poll, four polls
+    let n = if quick { 4 } else { 5 };
+    let single = "VOXDSRUAPTQ27";
+    for c in [cfg(Ver::V4, 4, 10, Ts::Kr), cfg(Ver::V4, 4, 4, Ts::Sw), cfg(Ver::V5, 4, 10, Ts::Sw), cfg(Ver::Auto, 4, 10, Ts::Ka)] {
+        plans.push(plan(c, single, 1, n));
     }
-    if quick {
-        plans.push(Plan { cfg: cfg(Ver::V4, 4, 10, Ts::Kr), alphabet: nine, len: 5 });
-    } else {
-        plans.push(Plan { cfg: cfg(Ver::V4, 4, 10, Ts::Kr), alphabet: full.iter().copied().filter(|s| s.applies(Ver::V4)).collect(), len: 6 });
+    if !quick {
+        // up to three datagrams per poll
+        plans.push(plan(cfg(Ver::V4, 4, 10, Ts::Sw), "VODUA27T", 3, 2));
+        plans.push(plan(cfg(Ver::V5, 4, 10, Ts::Kr), "VODRA2", 3, 2));
+        plans.push(plan(cfg(Ver::V4, 4, 4, Ts::Kr), "VODRUA27X", 2, 3));
     }
     rig::explore(&ctx, "C08", &plans);
     ctx.finish();
